@@ -69,6 +69,8 @@ impl DNSIterable for EdnsIterator<'_> {
     }
 
     fn next(mut self) -> Option<Self> {
+        #[cfg(dnssector_verif)]
+        crate::verif::tick(crate::verif::SITE_ITER_NEXT);
         {
             let rr_iterator = &mut self.rr_iterator;
             let parsed_packet = &mut rr_iterator.parsed_packet;
